@@ -208,6 +208,8 @@ CATALOGUE = [
     ("woff2-loca-stays-transformed-after-glyf-gave-up", "ttLib/woff2.py", '                    transformedTables.discard("loca")', "                    pass", "C04", "WOFF2TransformTablesLoop", "alarm"),
     ("woff2-transformed-flag-set-then-cleared", "ttLib/woff2.py", "                if data is not None:\n                    entry.transformed = True", "                entry.transformed = True", "C04", "WOFF2TransformTablesLoop", "green"),
     ("overflow-promotes-after-a-successful-split", "ttLib/tables/otBase.py", "        if ok:\n            return ok\n\n        # Try upgrading lookup to Extension and hope", "        # Try upgrading lookup to Extension and hope", "C06", "ResolveOverflowChoice", "alarm"),
+    ("ttglyphpen-negative-overflow-not-decomposed", "pens/ttGlyphPen.py", "                s > 2 or s < -2", "                s > 2", "C14", "TTGlyphPenBuildComponents", "alarm"),
+    ("ttglyphpen-exact-two-not-clamped", "pens/ttGlyphPen.py", "                        MAX_F2DOT14 if MAX_F2DOT14 < s <= 2 else s", "                        MAX_F2DOT14 if MAX_F2DOT14 < s < 2 else s", "C14", "TTGlyphPenBuildComponents", "alarm"),
     ("closure-memo-subset-spelling", "subset/__init__.py", "    if cur_glyphs.issubset(covered):\n        return\n    covered.update(cur_glyphs)\n\n    for st in self.SubTable:", "    if cur_glyphs <= covered:\n        return\n    covered.update(cur_glyphs)\n\n    for st in self.SubTable:", "C07", "LookupClosureMemo", "green"),
 ]
 
